@@ -41,7 +41,8 @@ XEv ==
   \/ Inl("status.set", "x", XLoopSet /\ StatusOk(Stopping))
   \/ Obs("obs.ps_begin", "x", XPostStopBegin)
   \/ Obs("obs.ps_end", "x", XPostStopEnd)
-  \/ Inl("guard.cleanup", "x", \E e \in BOOLEAN : XGuardBegin(e) /\ (Strict => e = B(Ev.d)))
+  \* whether a terminal event is owed is a fact of the run (finish(evt) / a guard armed by mark_running), not a choice
+  \/ Inl("guard.cleanup", "x", \E e \in BOOLEAN : XGuardBegin(e) /\ (Strict => e = B(Ev.d)) /\ e = opt.owed)
   \/ Inl("status.set", "x", XGuardSet /\ StatusOk(Stopping))
   \/ Inl("term.take", "x", XSigTerm /\ (Strict => (Ev.obj = "A" /\ Ev.d = Cardinality(cf.kids \ taken))))
   \/ Inl("term.take", "x", XTermSelf /\ (Strict => (Ev.obj = "A" /\ Ev.d = Cardinality(cf.kids \ taken))))
@@ -109,7 +110,7 @@ SkipInternal == ~Strict /\ Live /\ Ev.a \in InternalLabels /\ Same /\ Adv
 
 Reset ==
   /\ IsA("reset") /\ Adv
-  /\ opt' = [racer |-> B(Ev.meta.racer), late |-> B(Ev.meta.late)]
+  /\ opt' = [racer |-> B(Ev.meta.racer), late |-> B(Ev.meta.late), owed |-> B(Ev.meta.owed)]
   /\ \E c \in TrCfgs :
        /\ c.named = B(Ev.meta.named) /\ c.inpg = B(Ev.meta.inpg) /\ c.hsup = B(Ev.meta.hsup)
        /\ Cardinality(c.kids) = Ev.meta.kids /\ (Ev.meta.kids = 1 => c.kids = {"k1"})
@@ -129,7 +130,7 @@ Reset ==
 TNext == \/ Reset
          \/ ((End \/ SkipInternal \/ XEv \/ (opt.racer /\ REv) \/ SupEv \/ TimerEv \/ \E w \in Waiters : WEv(w)) /\ NoOpt)
 
-TInit == Init /\ l = 1 /\ opt = [racer |-> FALSE, late |-> FALSE] /\ TLCSet(42, 1)
+TInit == Init /\ l = 1 /\ opt = [racer |-> FALSE, late |-> FALSE, owed |-> TRUE] /\ TLCSet(42, 1)
 TSpec == TInit /\ [][TNext]_tvars
 Progress == /\ TLCSet(42, IF l > TLCGet(42) THEN l ELSE TLCGet(42))
             \* EARLY=1 (lenient validation): one behaviour that explains the whole trace is enough, stop there
